@@ -249,7 +249,7 @@ pub fn make_plan(rng: &mut Rng, profile: Profile, force_journal: Option<bool>) -
         Profile::Client => rng.chance(3, 4),
         _ => rng.chance(1, 3),
     });
-    RunPlan {
+    let mut plan = RunPlan {
         profile,
         policy: *rng.pick(&[
             Policy::Uniform,
@@ -315,7 +315,26 @@ pub fn make_plan(rng: &mut Rng, profile: Profile, force_journal: Option<bool>) -
                 }
             }
         } as u32,
+    };
+    // Swarm dimension "lifetime": every worker is about to reach its time limit and many request
+    // classes carry a time request, so that workers give tasks back on their own (hard rejects
+    // of assigned and pre-sent tasks, the periodic retract check) while the server retracts,
+    // redirects and cancels.
+    let lifetime_heavy = profile != Profile::Priority
+        && rng.chance(1, if profile == Profile::Retract { 3 } else { 7 });
+    if lifetime_heavy {
+        for w in plan.cluster.workers.iter_mut() {
+            w.time_limit = Some(rng.range(15, 240));
+        }
+        for c in plan.classes.iter_mut() {
+            for v in c.variants.iter_mut() {
+                if v.n_nodes == 0 && rng.chance(1, 2) {
+                    v.min_time = rng.range(5, 120);
+                }
+            }
+        }
     }
+    plan
 }
 
 /* ---------------------------------------------------------------------------------------- */
